@@ -3,6 +3,8 @@ package main
 import (
 	"fmt"
 	"sort"
+
+	"golang.org/x/tools/go/ssa"
 )
 
 // dumpErrSets prints the verdict sets (debug aid: `sipsp-sa errsets`).
@@ -59,3 +61,53 @@ func dumpFSM(repo, fnName string) {
 }
 
 func errTypeOf(f interface{ String() string }) string { return "ErrorHdr" }
+
+// dumpLoopPhis lists the loop-head phis of every streaming function (debug aid).
+func dumpLoopPhis(repo string) {
+	p, err := loadProg(repo, "debug")
+	if err != nil {
+		fmt.Println(err)
+		return
+	}
+	c := &Ctx{Prog: p}
+	e := newErrAnalysis(p)
+	for _, f := range streamingFuncs(c, e) {
+		head, _ := mainLoop(f)
+		if head == nil {
+			fmt.Printf("%-24s (no main loop)\n", ssaKey(f))
+			continue
+		}
+		var ps []string
+		for _, ins := range head.Instrs {
+			if ph, ok := ins.(*ssa.Phi); ok {
+				carried := false
+				for i, ed := range ph.Edges {
+					if head.Dominates(head.Preds[i]) && ed != ssa.Value(ph) {
+						carried = true
+					}
+				}
+				ps = append(ps, fmt.Sprintf("%s(carried=%v)", ph.Comment, carried))
+			}
+		}
+		fmt.Printf("%-24s %v\n", ssaKey(f), ps)
+	}
+}
+
+func dumpHdrLineFSM(repo string) {
+	p, _ := loadProg(repo, "debug")
+	c := &Ctx{Prog: p}
+	e := newErrAnalysis(p)
+	f := c.SFuncs["ParseHdrLine"]
+	sp := fsmSpec{fn: f, stateFld: "state", constName: stateConstsOf(c, "ParseHdrLine", "h")}
+	for k, v := range sp.constName {
+		if len(v) < 2 || !(v[1] >= 'A' && v[1] <= 'Z') {
+			delete(sp.constName, k)
+		}
+	}
+	r := extractFSM(c, e, sp)
+	for _, t := range r.grouped(append(r.trans, r.post...)) {
+		if t.Exit == "return" && r.name(t.To) == "hFIN" && t.Verd.has(3) {
+			fmt.Printf("%s %s -> %s verd=%s calls=%v conds=%v\n", r.name(t.From), t.Bytes.String(), r.name(t.To), e.setName("ErrorHdr", t.Verd), t.Calls, t.Conds)
+		}
+	}
+}
